@@ -99,7 +99,16 @@ def _count_of(interp, args, kwargs):
     return SV(INT, f(interp.ctx.strs.to_native(args[0]), interp.ctx.strs.to_native(args[1])))
 
 
+def _no_keys(interp, args, kwargs):
+    """no_keys(m): the map has no key at all"""
+    ty, a = _map_term(interp, args[0])
+    s = sort_of(ty)
+    k = z3.Const(interp.ctx.fresh_name("key"), sort_of(ty.args[0]))
+    return SV(BOOL, z3.ForAll([k], z3.Not(z3.Select(s.dom(a), k))))
+
+
 SPEC_BUILTINS = {
+    "no_keys": _no_keys,
     "count_of": _count_of,
     "is_in": _is_in,
     "fresh": _fresh, "split_off": _extern("split_off"), "join_off": _extern("join_off"),
